@@ -130,4 +130,56 @@ __CPROVER_ensures(RET == CIF_OK ==> (g_pipe_n == 2 && g_pipe_first_mode == (int)
 __CPROVER_ensures((RET == CIF_OK && normalized != NULL) ==> (*normalized != NULL && (*normalized)[g_norm_len] == 0))
 __CPROVER_ensures((RET != CIF_OK && normalized != NULL) ==> *normalized == OLD(*normalized))
 ;
+
+/* ---- cif_analyze_string (C18) ------------------------------------------------------------------------------------------------ */
+/* Ghost prefix statistics of the string under analysis, computed by the harness with a plain reference loop (the executable form
+ * of "number of lines", "length of the first / last / longest line", ...).  Index j = after j code units.  The loop invariant of the
+ * real counting loop states that every counter equals its ghost at the current position. */
+#define NSTAT (MAXN + 1)
+int32_t gs_lines[NSTAT];     /* terminators completed (LF, or CR not followed by LF) */
+int32_t gs_cur[NSTAT];       /* units in the current (unterminated) line */
+int32_t gs_first[NSTAT];     /* length of the first line once it is terminated, else 0 */
+int32_t gs_max[NSTAT];       /* longest terminated line so far */
+int32_t gs_semi[NSTAT];      /* current run of semicolons */
+int32_t gs_most[NSTAT];      /* longest completed run of semicolons */
+int32_t gs_crlf[NSTAT];      /* CRs that are directly followed by LF */
+int gs_nlsemi[NSTAT];        /* a terminator directly followed by a semicolon has been seen */
+int32_t gs_cnt[10][NSTAT];   /* occurrences of SP TAB [ ] { } apostrophe quote LF CR */
+int gs_has_apos3, gs_has_quot3;   /* the string contains three apostrophes / three quotes in a row */
+
+/* assumed ICU contracts */
+UChar *u_strstr(const UChar *s, const UChar *substring)
+__CPROVER_requires(__CPROVER_r_ok(s, MAXN * sizeof(UChar)) && USTR_Q(s, g_len) && __CPROVER_r_ok(substring, 4 * sizeof(UChar)))
+__CPROVER_assigns()
+__CPROVER_ensures((RET == NULL) == !(substring[0] == 0x27 ? gs_has_apos3 : gs_has_quot3))
+;
+
+/* what may be presented whitespace-delimited in CIF 2.0 (the predicate the scanner side uses as well) */
+#define BARE_OK(s, len) ((len) > 0 && gs_cnt[0][len] + gs_cnt[1][len] + gs_cnt[2][len] + gs_cnt[3][len] + gs_cnt[4][len] + gs_cnt[5][len] == 0 \
+    && (s)[0] != 0x27 && (s)[0] != 0x22 && (s)[0] != '#' && (s)[0] != '$' && (s)[0] != '_' && (s)[0] != ';' \
+    && !((len) == 1 && ((s)[0] == '?' || (s)[0] == '.')) && !SPEC_RESERVED(s))
+
+int cif_analyze_string(const UChar *str, int allow_unquoted, int allow_triple_quoted, int32_t length_limit, struct cif_string_analysis_s *result)
+__CPROVER_requires(__CPROVER_r_ok(str, MAXN * sizeof(UChar)) && USTR_Q(str, g_len) && __CPROVER_rw_ok(result, sizeof(*result)) && length_limit >= 8 && length_limit <= 4096)
+__CPROVER_assigns(__CPROVER_object_whole(result))
+__CPROVER_ensures(RET == CIF_OK)
+/* the statistics are exact */
+__CPROVER_ensures(result->length == (int32_t)g_len && result->num_lines == 1 + gs_lines[g_len])
+__CPROVER_ensures(result->length_last == gs_cur[g_len])
+__CPROVER_ensures(result->length_first == (gs_lines[g_len] == 0 ? gs_cur[g_len] : gs_first[g_len]))
+__CPROVER_ensures(result->length_max == (gs_lines[g_len] == 0 ? gs_cur[g_len] : (gs_cur[g_len] > gs_max[g_len] ? gs_cur[g_len] : gs_max[g_len])))
+__CPROVER_ensures(result->max_semi_run == (gs_semi[g_len] > gs_most[g_len] ? gs_semi[g_len] : gs_most[g_len]))
+__CPROVER_ensures((result->contains_text_delim != 0) == (gs_nlsemi[g_len] != 0))
+/* the recommended delimiter is permitted by the arguments and safe for this string */
+__CPROVER_ensures(result->delim_length >= 0 && result->delim_length <= 3)
+__CPROVER_ensures(result->delim_length == 0 ==> (allow_unquoted && gs_lines[g_len] == 0 && BARE_OK(str, g_len)))
+__CPROVER_ensures(result->delim_length == 1 ==> (gs_lines[g_len] == 0 && (int32_t)g_len <= length_limit - 2
+        && ((result->delim[0] == 0x27 && gs_cnt[6][g_len] == 0) || (result->delim[0] == 0x22 && gs_cnt[7][g_len] == 0)) && result->delim[1] == 0))
+__CPROVER_ensures(result->delim_length == 3 ==> (allow_triple_quoted && g_len > 0
+        && ((result->delim[0] == 0x27 && !gs_has_apos3 && str[g_len > 0 ? g_len - 1 : 0] != 0x27) || (result->delim[0] == 0x22 && !gs_has_quot3 && str[g_len > 0 ? g_len - 1 : 0] != 0x22))
+        && result->delim[1] == result->delim[0] && result->delim[2] == result->delim[0] && result->delim[3] == 0))
+__CPROVER_ensures(result->delim_length == 2 ==> (result->delim[0] == 0x0A && result->delim[1] == ';' && result->delim[2] == 0))
+/* a single line that admits a bare or singly quoted form with room to spare gets one */
+__CPROVER_ensures((gs_lines[g_len] == 0 && (int32_t)g_len <= length_limit - 2 && (gs_cnt[6][g_len] == 0 || gs_cnt[7][g_len] == 0)) ==> result->delim_length <= 1)
+;
 #endif
